@@ -2,6 +2,9 @@ package wire
 
 import (
 	"bytes"
+	"crypto/sha256"
+	"crypto/tls"
+	"encoding/base64"
 	"encoding/json"
 	"errors"
 	"fmt"
@@ -42,6 +45,10 @@ func runC12(t testing.TB, c C12Case) (key, what string, classes map[string]int) 
 	}
 	defer s.Stop()
 	addr := s.DialAddr()
+	pin, err := s.ServedPin()
+	if err != nil {
+		return "HARNESS", "handshake: " + err.Error(), classes
+	}
 	mustAccept := func(when string) (string, string) {
 		if !probe(addr) {
 			return "listener-closed-early", fmt.Sprintf("%s: no shell is fully attached but a TCP connection to the listener was refused", when)
@@ -162,7 +169,13 @@ func runC12(t testing.TB, c C12Case) (key, what string, classes map[string]int) 
 			firstRefused = now
 		}
 		if ok && !firstRefused.IsZero() {
-			return "listener-reopened", "a TCP connection was accepted after an earlier one had been refused", classes
+			// ports are shared with every other process in the sandbox: only a
+			// listener that presents this server's key counts
+			if p2, err := pinAt(addr); err == nil && p2 == pin {
+				return "listener-reopened", "a TCP connection was accepted (and this server's key presented) after an earlier one had been refused", classes
+			}
+			classes["port-reused-by-another-process"]++
+			break
 		}
 		if !firstRefused.IsZero() && now.Sub(firstRefused) > 200*time.Millisecond {
 			break
@@ -258,7 +271,9 @@ func runC12(t testing.TB, c C12Case) (key, what string, classes map[string]int) 
 		}
 	}
 	if probe(addr) {
-		return "listener-reopened", "a TCP connection was accepted after the shell ended", classes
+		if p2, err := pinAt(addr); err == nil && p2 == pin {
+			return "listener-reopened", "a TCP connection was accepted (and this server's key presented) after the shell ended", classes
+		}
 	}
 	return "", "", classes
 }
@@ -330,4 +345,15 @@ func TestC12(t *testing.T) {
 			rt.Fatalf("%v", cc.Violation("TestC12", k, w, c, nil))
 		}
 	})
+}
+
+// pinAt returns the pin of whatever TLS server answers at addr.
+func pinAt(addr string) (string, error) {
+	c, err := tls.DialWithDialer(&net.Dialer{Timeout: 2 * time.Second}, "tcp", addr, &tls.Config{InsecureSkipVerify: true})
+	if err != nil {
+		return "", err
+	}
+	defer c.Close()
+	h := sha256.Sum256(c.ConnectionState().PeerCertificates[0].RawSubjectPublicKeyInfo)
+	return base64.StdEncoding.EncodeToString(h[:]), nil
 }
